@@ -131,7 +131,7 @@ class Enumerator(object):
             return None
         if not self.has_ctl(target['hir']):
             return None
-        if any(self.has_ctl(a) for a in H.call_args(node)):
+        if any(self.has_ctl(a) for a in H.call_args(node) if S.closure_node(a) is None):
             return None
         return npath, target
 
@@ -492,7 +492,7 @@ class Enumerator(object):
                 if not p.done:
                     v = p.value
                     sv = S.show(v) if v is not None else ''
-                    if sv.startswith('Err(') or re.match(r'^errors::\w+Snafu::fail\(', sv):
+                    if sv.startswith('Err('):
                         p.done = 'return'  # `?` on the helper's error path leaves the caller
                     elif v is not None and v[0] == 'call' and v[1] in ('Ok', 'std::result::Result::Ok') and len(v[2]) == 1:
                         p.value = v[2][0]
@@ -510,7 +510,7 @@ class Enumerator(object):
                     p.value = ('try', p.value)
                 out.append(p)
             return out
-        if k in ('Call', 'MethodCall') and any(self.has_ctl(a) for a in H.call_args(node)):
+        if k in ('Call', 'MethodCall') and any(self.has_ctl(a) for a in H.call_args(node) if S.closure_node(a) is None):
             # control flow inside an argument (rare): evaluate arguments path-wise left to right
             raise Unrecognised('control flow inside call arguments at %s' % node.get('sp'))
         # leaf expression
